@@ -171,6 +171,8 @@ class Run(object):
         self.escaped = None
         self.double_commit = None
         self.moves = 0.0             # weight of leader / coordinator moves in gen_event
+        self.alive = False           # start() accepted, its Deferred not fired, no stop() / shutdown() called since
+        self.idle_seen = None        # first step after which an alive consumer had nothing outstanding at all
         self.step_no = 0
         self.log_events = []         # what the driver did (for replay files)
         self.done_blocks = []        # offsets whose processing completed successfully
@@ -303,6 +305,8 @@ class Run(object):
             self.values_seen.append((m.offset, m.message.key, m.message.value))
         self.cur.append((CL.OUT_CALLPROC, len(offs)) + tuple(offs))
         inside, result = self.plan.pop(0) if self.plan else (0, 2)
+        if inside in (1, 3):
+            self.alive = False
         if inside == 1:
             try:
                 consumer.stop()
@@ -378,15 +382,18 @@ class Run(object):
                 self.cur_event = (CL.EV_START, ev[1])
                 d = c.start(ev[1])
                 self.cur.append((CL.OUT_RET, 0))
-                d.addBoth(lambda r: setattr(self, "start_result", (self.step_no, r)) or None)
+                self.alive = True
+                d.addBoth(lambda r: (setattr(self, "start_result", (self.step_no, r)), setattr(self, "alive", False)) and None)
             elif t == "move":
                 if ev[1] == "leader":
                     self.leader = ev[2]
                 else:
                     self.coord = ev[2]
             elif t == "stop":
+                self.alive = False
                 c.stop()
             elif t == "shutdown":
+                self.alive = False
                 c.shutdown().addBoth(lambda r: None)
             elif t == "commit":
                 self.do_commit()
@@ -421,6 +428,10 @@ class Run(object):
             if not isinstance(e, (C.RestartError, C.RestopError)):
                 import traceback
                 self.escaped = (self.step_no, repr(e), traceback.format_exc()[-1500:])
+        self.procs = [d for d in self.procs if not d[0].called]
+        if (self.alive and not self.escaped and self.idle_seen is None and not self.procs and not self.pending()
+                and not self.clock.getDelayedCalls()):
+            self.idle_seen = self.step_no
         lc, lp = c.last_committed_offset, c.last_processed_offset
         self.tr_events.append(self.cur_event)
         self.tr_steps.append(self.cur)
@@ -568,6 +579,10 @@ def monitors(run, store0):
     m = LL.mon_commit(run.tr_events, run.tr_steps, run.tr_ends)
     if m:
         res.append(("C03_commit_le_processed (composed)", m))
+    if run.idle_seen is not None:
+        res.append(("C02_progress (an alive consumer whose processor is not running has something outstanding)",
+                    "after step %d the consumer is alive, no processor result is pending, no request is at any broker and no timer is armed"
+                    % run.idle_seen))
     if run.wire_mismatch:
         res.append(("C03 commit identity (offset, generation, member on the wire = what the Consumer asked for)",
                     "step %d: OffsetCommit frame carries %r, the Consumer asked for %r" % run.wire_mismatch))
